@@ -30,7 +30,7 @@ FW_PLANS = {
             workers=14,
             mc=[C("core-thorough", "core", 2, 2, "mixed", ["Inv_C01"]),
                 C("core-quick", "full", 2, 1, "wide", ["Inv_C01"])],
-            gen=[C("core-quick", "core", 2, 2, "mixed"), C("core-quick", "full", 2, 1, "mixed")],
+            gen=[C("core-quick", "core", 2, 2, "one"), C("core-quick", "full", 2, 1, "mixed")],
             rand=dict(scenarios=3000, calls=60, flags=["--big-ids"]))),
     "C02": dict(
         verdicts={"C02"},
@@ -69,7 +69,7 @@ FW_PLANS = {
             workers=14,
             mc=[C("core-thorough", "core", 2, 2, "mixed", ["Inv_C04"]),
                 C("limit-quick", "limit", 3, 2, "one", ["Inv_C04"])],
-            gen=[C("core-quick", "core", 2, 2, "mixed")],
+            gen=[C("core-quick", "core", 2, 2, "one")],
             rand=dict(scenarios=3000, calls=60))),
     "C05": dict(
         verdicts={"C05", "PANIC"},
@@ -86,7 +86,8 @@ FW_PLANS = {
             workers=14, compose=dict(scenarios=400),
             mc=[C("core-thorough", "core", 2, 2, "mixed", []),
                 C("lazy", "lazy", 3, 1, "one", ["Inv_C01", "Inv_C04", "Inv_C07", "Inv_C08", "Inv_C09"], timeout=3000)],
-            gen=[C("core-quick", "full", 2, 2, "mixed", timeout=3000), C("core-thorough", "core", 3, 1, "mixed"),
+            gen=[C("core-quick", "full", 2, 1, "wide"), C("core-quick", "core", 2, 2, "one"),
+                 C("core-thorough", "core", 2, 1, "mixed"),
                  C("lazy", "lazy", 2, 1, "one"), C("end-quick", "end", 2, 2, "one"), C("limit-duo", "limit", 3, 1, "one"),
                  C("sig-duo", "sig", 2, 2, "one"), C("limit-reenter", "limit", 3, 2, "one"),
                  C("ctr-quick", "ctr", 3, 2, "one"), C("sig-quick", "sig", 2, 2, "one"),
